@@ -2,6 +2,7 @@ package main
 
 import (
 	"fmt"
+	"sort"
 	"go/types"
 	"strings"
 
@@ -278,6 +279,17 @@ func (f *Frame) keepUnreachable(old *State, passed provSet) {
 			}
 		}
 		ex.assume("(= (select " + ex.heapTerm(f.st, o.heap) + " " + o.addr + ") (select " + ex.heapTerm(old, o.heap) + " " + o.addr + "))")
+	}
+	// the pre-existing objects this function may write (writes clauses) are not written by callees without a write effect
+	var hs []string
+	for h := range ex.writable {
+		hs = append(hs, h)
+	}
+	sort.Strings(hs)
+	for _, h := range hs {
+		for _, w := range ex.writable[h] {
+			ex.assume("(= (select " + ex.heapTerm(f.st, h) + " " + w + ") (select " + ex.heapTerm(old, h) + " " + w + "))")
+		}
 	}
 }
 
@@ -742,7 +754,7 @@ func (f *Frame) mergeStates(ins []mergeIn) *State {
 			keys[k] = true
 		}
 	}
-	for k := range keys {
+	for _, k := range sortedCellKeys(keys) {
 		var acc Val
 		have := false
 		same := true
@@ -787,7 +799,7 @@ func (f *Frame) mergeStates(ins []mergeIn) *State {
 		ex.nframe++
 		ns.epoch = 1000 + ex.nframe
 	}
-	for k := range hn {
+	for _, k := range sortedKeys(hn) {
 		t := ex.heapTerm(ins[len(ins)-1].st, k)
 		same := true
 		for j := len(ins) - 2; j >= 0; j-- {
@@ -829,6 +841,33 @@ func (f *Frame) mergeStates(ins []mergeIn) *State {
 		}
 	}
 	return ns
+}
+
+func sortedCellKeys(m map[cellKey]bool) []cellKey {
+	var ks []cellKey
+	for k := range m {
+		ks = append(ks, k)
+	}
+	sort.Slice(ks, func(i, j int) bool {
+		a, b := ks[i], ks[j]
+		if a.f != b.f {
+			pa, pb := "", ""
+			if a.f != nil {
+				pa = a.f.pfx
+			}
+			if b.f != nil {
+				pb = b.f.pfx
+			}
+			if pa != pb {
+				return pa < pb
+			}
+		}
+		if a.a.Pos() != b.a.Pos() {
+			return a.a.Pos() < b.a.Pos()
+		}
+		return a.a.Name() < b.a.Name()
+	})
+	return ks
 }
 
 // runDefers executes the deferred calls (normal-return path only) in LIFO order.
